@@ -1,5 +1,5 @@
+import math
 import random
-import sys
 import uuid
 from collections.abc import Iterator
 from datetime import datetime, timedelta
@@ -133,7 +133,7 @@ def generate_gt(predicate: GtPredicate) -> Iterator:
         case datetime() as dt:
             yield from (dt + timedelta(days=days) for days in range(1, 6))
         case float():
-            yield from random_floats(lower=predicate.v + sys.float_info.epsilon)
+            yield from random_floats(lower=math.nextafter(predicate.v, math.inf))
         case int():
             yield from random_ints(lower=predicate.v + 1)
         case str():
@@ -190,7 +190,7 @@ def generate_lt(predicate: LtPredicate) -> Iterator:
         case datetime() as dt:
             yield from (dt - timedelta(days=days) for days in range(0, 5))
         case float():
-            yield from random_floats(upper=predicate.v - sys.float_info.epsilon)
+            yield from random_floats(upper=math.nextafter(predicate.v, -math.inf))
         case int():
             yield from random_ints(upper=predicate.v - 1)
         case str():
